@@ -1,6 +1,6 @@
 (** C06 — termination bookkeeping: the dependency tracker never loses or duplicates a waiter; prompts are bounded. *)
 From Coq Require Import ZArith NArith List Bool Permutation.
-From HV Require Import Solver TrackerProofs RunLemmas SolverDem SolverPrompt SolverExamples SolverWaits.
+From HV Require Import Solver TrackerProofs RunLemmas SolverDem SolverPrompt SolverExamples SolverWaits SolverCount.
 Import ListNotations.
 
 (* (1) every history of add_unmet / meet / generator steps keeps the representation invariant *)
@@ -53,6 +53,18 @@ Theorem C06_one_place_per_line :
   let s := result_state r in NoDup (unatt s ++ waiters (fdep s) ++ waiters (idep s)).
 Proof. intros C rank ans R fuel I hp r. exact (tokens_unique C rank ans R fuel I hp r). Qed.
 
+(* (4) bounded work, counted: in every run a line is attempted at most once, plus once for each DISTINCT line it was registered to wait
+   for, plus once for each answered prompt that named it as waiting, plus the number of input names whose specification was loaded (a
+   retry inside one attempt happens only after a new form's input specifications were loaded) *)
+Theorem C06_bounded_attempts :
+  forall (C:catalogue) (rank:name -> N) (ans:name -> option V) (R:list name) fuel (I:istore) hp r,
+  cat_wf C -> cat_nodup C -> NoDup R ->
+  solve C rank fuel R [] I hp ans = r ->
+  let s := result_state r in
+  forall f, NoDup (waited_for f s) /\
+            (cnt f (attempts (trace s)) <= 1 + length (waited_for f s) + cnt f (released (trace s)) + length (specs s))%nat.
+Proof. intros C rank ans R fuel I hp r. exact (bounded_attempts_distinct C rank ans R fuel I hp r). Qed.
+
 (* non-vacuity: the example catalogue meets the hypotheses; its cyclic run has four distinct waits *)
 Ltac nodup_lit := repeat (apply NoDup_cons; [cbn [In]; intros Hx; repeat (destruct Hx as [Hx|Hx]; [discriminate Hx|]); exact Hx|]); apply NoDup_nil.
 Example C06_exC_well_formed : cat_wf exC /\ cat_nodup exC.
@@ -72,6 +84,12 @@ Proof.
   nodup_lit.
 Qed.
 
+(* in the cyclic run line 11 is attempted twice and waits for two distinct lines (12, then 10); the second wait is never released *)
+Example C06_cycle_attempts :
+  let s := result_state ex_cycle in
+  (cnt 11%N (attempts (trace s)), waited_for 11%N s, cnt 11%N (released (trace s)), length (specs s)) = (2, [12%N; 10%N], 0, 2)%nat.
+Proof. vm_compute. reflexivity. Qed.
+
 Goal True. idtac "@@PA C06_tracker_history_wf". Abort.
 Print Assumptions C06_tracker_history_wf.
 Goal True. idtac "@@PA C06_drain_complete". Abort.
@@ -82,3 +100,5 @@ Goal True. idtac "@@PA C06_no_repeated_wait". Abort.
 Print Assumptions C06_no_repeated_wait.
 Goal True. idtac "@@PA C06_one_place_per_line". Abort.
 Print Assumptions C06_one_place_per_line.
+Goal True. idtac "@@PA C06_bounded_attempts". Abort.
+Print Assumptions C06_bounded_attempts.
